@@ -69,7 +69,25 @@ def gen_cases(rng, tier):
     for _ in range(n):
         descs = [V.gen_descspec(r, types=types) for _ in range(r.randint(1, 2))]
         recs = [V.gen_record(r, descspec=r.choice(descs), types=types) for _ in range(r.randint(1, 5))]
-        cases.append({"kind": "impl2ref", "records": recs})
+        case = {"kind": "impl2ref", "records": recs}
+        w = r.below(20)
+        if w < 3:
+            # comparison-ignore configuration in force while writing: it must not change what is stored
+            names = [n for s_ in recs for _, n in s_[1][1]]
+            case["ignore"] = r.choice([["_generated"], ["_source", "_classification"], names[:1], names + ["_version"]])
+        elif w < 6:
+            # grouped records: two groups with one name and the same flattened field list but different member types
+            # (A(x)+B(y), then C(x, y)); member types may or may not have been written before
+            fa, fb = [["string", "x"]], [["varint", "y"]]
+            A, B, C = ["g/a", fa], ["g/b", fb], ["g/c", fa + fb]
+            mk = lambda d: V.gen_record(r, descspec=d, types=types)   # noqa: E731
+            g1 = ["grouped", "grp/same", [mk(A), mk(B)]]
+            g2 = ["grouped", "grp/same", [mk(C)]]
+            seq = [g1, g2] if r.chance(50) else [g2, g1]
+            if r.chance(30):
+                seq.insert(r.randint(0, 2), mk(r.choice([A, B, C])))
+            case["records"] = recs[:r.randint(0, 2)] + seq + recs[2:]
+        cases.append(case)
     r = rng.fork("ref2impl")
     for _ in range(n):
         nf = r.randint(1, 5)
@@ -270,9 +288,16 @@ def run_real(case):
             recs = [V.build(s) for s in case["records"]]
             buf = io.BytesIO()
             w = RecordStreamWriter(buf)
-            for r in recs:
-                w.write(r)
-            w.flush()
+            import flow.record.base as _B
+            _saved = set(_B.IGNORE_FIELDS_FOR_COMPARISON)
+            if case.get("ignore"):
+                _B.set_ignored_fields_for_comparison(list(case["ignore"]))
+            try:
+                for r in recs:
+                    w.write(r)
+                w.flush()
+            finally:
+                _B.set_ignored_fields_for_comparison(_saved)
             data = buf.getvalue()
             w.fp = None
             hashes = []
